@@ -224,6 +224,8 @@ def run_tpcn(case):
     means = np.array([mu, 1.0 - mu][:K]) if K == 2 else np.array([mu])
     covs = np.array([S, S * 2.5 + np.eye(d) * 1e-3][:K])
     dofs = np.array([nu, 3.0][:K])
+    if case.get("int_dof"):  # integer-typed degrees of freedom are a legal way to pass nu = 1, 3, 5 ...
+        dofs = np.array([int(nu), 3][:K], dtype=np.int64) if case["int_dof"] == "array" else [int(nu), 3][:K]
     ms = ModeStatistics(means, covs, dofs)
     for assign in range(K):
         cc = dict(case, assign=assign)
@@ -538,6 +540,11 @@ def plan(ctx):
                             if not th and d == 3 and (hash((K, nu, S, mu, sigma)) + ctx.seed) % 3:
                                 continue
                             B.append({"kind": "tpcn", "d": d, "K": K, "nu": nu, "S": S, "mu": mu, "sigma": sigma})
+    for d in (1, 2):
+        for K in (1, 2):
+            for nu in (1.0, 2.0, 5.0):
+                for kind in ("array", "list"):
+                    B.append({"kind": "tpcn", "d": d, "K": K, "nu": nu, "S": "iso", "mu": "centre", "sigma": 0.5, "int_dof": kind})
     ctx.explore("B-tpcn-law-vs-ratio", B, chunksize=2)
     # ---- C, D
     CD = [{"kind": "accept", "kernel": k} for k in ("tpcn", "rwm")]
